@@ -115,7 +115,8 @@ def chainCost : Node → List Node → Int
   | prev, [] => conn prev.r 0
   | prev, n :: rest => conn prev.r n.l + n.c + chainCost n rest
 
-/-! ## driver -/
+/-! ## driver of the first round (`vdriver` now dispatches C02 to `Vit.handleRec`, `Model/LatticeRec.lean`, which runs the
+recycled three-vector state; `parseNode`/`showNode`/`showOptInt` are shared) -/
 
 def parseNode (s : List Char) : Option Node :=
   match Wire.intTuple? s with
